@@ -1,15 +1,35 @@
 /-
 Driver for stream `roots` (C03): replays each block's storage change set on the MPT model and
 prints the model's state root (real double SHA-256), so model and node agree on the 32 bytes at
-every height; `get` reads the model trie of a given height.
+every height; `get` reads the model trie of a given height; `findl`/`findh`/`findw` run the model of
+System.Storage.Find (Model/StateCommit/Find.lean) on the live-side model store (a C09 store stack
+that receives the same change sets, flushed now and then) and on the trie of a height under empty
+cache layers (plus the invocation's own writes for `findw`).
 
-  case <k>                          -> case <k>            (reset: empty trie, no heights)
-  batch <h> <key> <val|del> ...     -> <root hex>          MapToMPTBatch + PutBatch on the trie of h-1
-  get <h> <key>                     -> <val hex> | none
+  case <k>                                  -> case <k>            (reset: empty trie, no heights)
+  batch <h> <key> <val|del> ...             -> <root hex>          MapToMPTBatch + PutBatch on the trie of h-1
+  get <h> <key>                             -> <val hex> | none
+  findl <id4> <prefix> <opts>               -> invalid:<i> | fault | ok:[item,...]   (live model store, now)
+  findh <h> <id4> <prefix> <opts>           -> the same on the trie of height h
+  findw <h|live> <id4> <prefix> <opts> <key> <val|del> ...  -> the same after the invocation's own writes
+  sroot <h>                                 -> <index> <root hex> | none     GetStateRoot(h) of the model of
+                                               stateroot.Module's records (Model/StateCommit/Roots.lean), which
+                                               receives every batch as AddMPTBatch+UpdateCurrentLocal
+  local                                     -> <CurrentLocalHeight> <CurrentLocalStateRoot hex>
+  reset <h>                                 -> ok       ResetState(h) on the model, heights above h forgotten
+  restart                                   -> ok       Init(current height) on the model
+  rpcget <h> <id4> <key>                    -> <val hex> | none                 getstate
+  rpcproof <h> <id4> <key>                  -> <id‖key> <node,node,...> | none  getproof
+  rpcverify <h> <id‖key> <node,node,...>    -> <val hex> | invalid              verifyproof against the root of h
+  rpcfind <h> <id4> <prefix> <key|nil> <n>  -> err:keyprefix | <T|F> <k=v,...> <first|nil> <last|nil>   findstates
 -/
 import NeoModel.Base.Proto
 import NeoModel.Base.Sha256
 import NeoModel.Model.Mpt
+import NeoModel.Model.StateCommit.Find
+import NeoModel.Model.StateCommit.Roots
+import NeoModel.Model.StateCommit.Rpc
+import NeoModel.Props.C03
 open NeoModel NeoModel.Mpt
 
 def H : Bytes → Bytes := Sha256.hash2
@@ -17,15 +37,77 @@ def H : Bytes → Bytes := Sha256.hash2
 structure St where
   cur : Node := .empty
   hist : List (Nat × Node) := []
+  /-- live-side model: the DAO's MemCachedStore over a MemoryStore -/
+  live : Store.Store := .cached (Store.Layer.fresh false) (.memB [] [])
+  nBatch : Nat := 0
+  /-- model of stateroot.Module with the surviving chain -/
+  mod : StateCommit.Roots.St Node :=
+    { m := { store := [], mpt := .empty, currentLocal := List.replicate 32 0, localHeight := 0 }, chain := [] }
+  /-- root hash -> trie (what re-opening a trie from the node store gives) -/
+  tries : List (Bytes × Node) := []
 
-def parsePairs : List String → Option (List KV)
+def parsePairs : List String → Option (List (Bytes × Option Bytes))
   | [] => some []
   | k :: v :: rest => do
     let kb ← Hex.decode k
     let ov ← (if v == "del" then some none else (Hex.decode v).map some)
     let r ← parsePairs rest
-    pure ((toNibbles kb, ov) :: r)
+    pure ((kb, ov) :: r)
   | _ => none
+
+open NeoModel.Wire (Item) in
+partial def showItem : Item → String
+  | .byteArray b => "B" ++ Hex.encode b
+  | .buffer b => "U" ++ Hex.encode b
+  | .bool b => if b then "T" else "F"
+  | .int c => "I" ++ Hex.encode c
+  | .array l => "A[" ++ ",".intercalate (l.map showItem) ++ "]"
+  | .struct l => "S[" ++ ",".intercalate (l.map showItem) ++ "]"
+  | .map m => "M[" ++ ",".intercalate (m.map fun (k, v) => showItem k ++ ":" ++ showItem v) ++ "]"
+  | .null => "N"
+  | .interop => "X"
+  | .pointer _ => "P"
+  | .invalid => "?"
+
+open NeoModel.StateCommit.Find in
+def showOut : Out → String
+  | .invalid i => s!"invalid:{i}"
+  | .fault => "fault"
+  | .ok l => "ok:[" ++ ",".intercalate (l.map showItem) ++ "]"
+
+/-- the invocation's own writes as a private cache layer (keys are the contract's keys). -/
+def writeLayer (id : Nat) (ws : List (Bytes × Option Bytes)) : Store.Layer :=
+  ws.foldl (fun L w => L.set (StateCommit.Find.storageKey 0x70 id w.1) w.2) (Store.Layer.fresh true)
+
+def idOf (b : Bytes) : Nat := Wire.leVal b
+
+def parseNodes (s : String) : Option (List Bytes) :=
+  if s == "none" then some [] else (s.splitOn ",").mapM Hex.decode
+
+def showNodes (l : List Bytes) : String :=
+  if l.isEmpty then "none" else ",".intercalate (l.map Hex.encode)
+
+def showOptKey : Option Bytes → String
+  | some k => Hex.encode k
+  | none => "nil"
+
+open NeoModel.StateCommit.Rpc in
+def showFind : Except FindErr FindRes → String
+  | .error _ => "err:keyprefix"
+  | .ok r =>
+    (if r.truncated then "T " else "F ") ++
+      (if r.results.isEmpty then "none" else ",".intercalate (r.results.map fun e => Hex.encode e.1 ++ "=" ++ Hex.encode e.2)) ++
+      " " ++ showOptKey r.first ++ " " ++ showOptKey r.last
+
+/-- the trie side of the module model: the C10 MPT as `AuthMap` (StateCommit.mptMap), real root
+hashes, re-opening by root hash from the tries flushed so far. -/
+def trieOps (tries : List (Bytes × Node)) : StateCommit.Roots.TrieOps Node :=
+  { M := StateCommit.mptMap, rootOf := rootHash H, reopen := fun r => (tries.lookup r).getD .empty }
+
+/-- the live-side model store rebuilt from a trie (after a reset / restart). -/
+def liveOf (t : Node) : Store.Store :=
+  .cached (Store.Layer.fresh false)
+    (.memB [] ((entries t).map fun e => ((0x70 : UInt8) :: fromNibbles e.1, some e.2)))
 
 def step (s : St) (ws : List String) : St × String :=
   match ws with
@@ -33,9 +115,35 @@ def step (s : St) (ws : List String) : St × String :=
   | "batch" :: h :: items =>
     match h.toNat?, parsePairs items with
     | some hn, some m =>
-      let t := putBatch s.cur (mapToBatch m)
-      ({ cur := t, hist := (hn, t) :: s.hist }, Hex.encode (rootHash H t))
+      let t := putBatch s.cur (mapToBatch (m.map fun e => (toNibbles e.1, e.2)))
+      -- the live side: the same changes as writes to the DAO's store (a delete is a tombstone),
+      -- flushed to the backend every third block
+      let live1 := m.foldl (fun st e => st.put (0x70 :: e.1) e.2) s.live
+      let live2 := if s.nBatch % 3 == 2 then live1.persist.1 else live1
+      let tries := (rootHash H t, t) :: s.tries
+      let mod := (StateCommit.Roots.step (trieOps tries) s.mod (.block m)).getD s.mod
+      ({ s with cur := mod.m.mpt, hist := (hn, t) :: s.hist, live := live2, nBatch := s.nBatch + 1, mod := mod, tries := tries },
+        Hex.encode (rootHash H t))
     | _, _ => (s, "bad-op")
+  | ["sroot", h] =>
+    match h.toNat? with
+    | some hn =>
+      match StateCommit.Roots.getStateRoot s.mod.m hn with
+      | some r => (s, s!"{r.index} {Hex.encode r.root}")
+      | none => (s, "none")
+    | none => (s, "bad-op")
+  | ["local"] => (s, s!"{s.mod.m.localHeight} {Hex.encode s.mod.m.currentLocal}")
+  | ["reset", h] =>
+    match h.toNat? with
+    | some hn =>
+      let mod := (StateCommit.Roots.step (trieOps s.tries) s.mod (.reset hn none)).getD s.mod
+      let t := mod.m.mpt
+      ({ s with cur := t, hist := s.hist.filter (fun e => e.1 ≤ hn), live := liveOf t, mod := mod }, "ok")
+    | none => (s, "bad-op")
+  | ["restart"] =>
+    let mod := (StateCommit.Roots.step (trieOps s.tries) s.mod .restart).getD s.mod
+    let t := mod.m.mpt
+    ({ s with cur := t, live := liveOf t, mod := mod }, "ok")
   | ["get", h, k] =>
     match h.toNat?, Hex.decode k with
     | some hn, some kb =>
@@ -46,6 +154,60 @@ def step (s : St) (ws : List String) : St × String :=
         | none => (s, "none")
       | none => (s, "no-such-height")
     | _, _ => (s, "bad-op")
+  | ["findl", id, pfx, opts] =>
+    match Hex.decode id, Hex.decode pfx, opts.toInt? with
+    | some idb, some p, some o => (s, showOut (StateCommit.Find.findLive s.live 0x70 (idOf idb) p o))
+    | _, _, _ => (s, "bad-op")
+  | ["findh", h, id, pfx, opts] =>
+    match h.toNat?, Hex.decode id, Hex.decode pfx, opts.toInt? with
+    | some hn, some idb, some p, some o =>
+      match s.hist.lookup hn with
+      | some t =>
+        -- interop context's private layer over the historic DAO's MemCachedStore over TrieStore
+        (s, showOut (StateCommit.Find.findHistoric t [Store.Layer.fresh true, Store.Layer.fresh false] 0x70 (idOf idb) p o))
+      | none => (s, "no-such-height")
+    | _, _, _, _ => (s, "bad-op")
+  | "findw" :: h :: id :: pfx :: opts :: items =>
+    match Hex.decode id, Hex.decode pfx, opts.toInt?, parsePairs items with
+    | some idb, some p, some o, some wr =>
+      let W := writeLayer (idOf idb) wr
+      if h == "live" then
+        (s, showOut (StateCommit.Find.findLive (.cached W s.live) 0x70 (idOf idb) p o))
+      else
+        match h.toNat?.bind (fun hn => s.hist.lookup hn) with
+        | some t =>
+          (s, showOut (StateCommit.Find.findHistoric t [W, Store.Layer.fresh false] 0x70 (idOf idb) p o))
+        | none => (s, "no-such-height")
+    | _, _, _, _ => (s, "bad-op")
+  | ["rpcget", h, id, key] =>
+    match h.toNat?.bind (fun hn => s.hist.lookup hn), Hex.decode id, Hex.decode key with
+    | some t, some idb, some kb =>
+      match StateCommit.Rpc.getState t (idOf idb) kb with
+      | some v => (s, Hex.encode v)
+      | none => (s, "none")
+    | _, _, _ => (s, "bad-op")
+  | ["rpcproof", h, id, key] =>
+    match h.toNat?.bind (fun hn => s.hist.lookup hn), Hex.decode id, Hex.decode key with
+    | some t, some idb, some kb =>
+      match StateCommit.Rpc.getProof H t (idOf idb) kb with
+      | some (sk, ps) => (s, Hex.encode sk ++ " " ++ showNodes ps)
+      | none => (s, "none")
+    | _, _, _ => (s, "bad-op")
+  | ["rpcverify", h, skey, nodes] =>
+    match h.toNat?.bind (fun hn => s.hist.lookup hn), Hex.decode skey, parseNodes nodes with
+    | some t, some sk, some ps =>
+      match StateCommit.Rpc.verifyProof H (rootHash H t) (sk, ps) with
+      | some v => (s, Hex.encode v)
+      | none => (s, "invalid")
+    | _, _, _ => (s, "bad-op")
+  | ["rpcfind", h, id, pfx, key, n] =>
+    match h.toNat?.bind (fun hn => s.hist.lookup hn), Hex.decode id, Hex.decode pfx, n.toNat? with
+    | some t, some idb, some p, some cnt =>
+      let k : Option (Option Bytes) := if key == "nil" then some none else (Hex.decode key).map some
+      match k with
+      | some ko => (s, showFind (StateCommit.Rpc.findStates t (idOf idb) p ko cnt))
+      | none => (s, "bad-op")
+    | _, _, _, _ => (s, "bad-op")
   | _ => (s, "bad-op")
 
 def main : IO Unit := Proto.run ({} : St) step
